@@ -16,6 +16,7 @@ external c_fileset_destroy : nativeint -> unit = "vp_fileset_destroy"
 external c_fileset_source : nativeint -> nativeint = "vp_fileset_source"
 external c_fileset_reload : nativeint -> unit = "vp_fileset_reload"
 external c_fileset_reload_now : nativeint -> unit = "vp_fileset_reload_now"
+external c_fileset_partition : nativeint -> int -> nativeint * nativeint = "vp_fileset_partition"
 
 let engine = "fs"
 let rule = "histories (length 4..30) over: rewrite the setfile (add/remove/replace names, relative and absolute lines, lines naming missing files and files that are not tables), create/delete table files, advance the clock (whole seconds + random nanoseconds, around the reload interval), mtbl_fileset_reload, mtbl_fileset_reload_now, open an iterator on a handle (iter, get of a present / absent key, get_prefix, get_range, iter or range followed by a seek), close an iterator (it is drained at that moment: pinned snapshot), dup a handle with other filename/reader filters and interval in {0, n, NEVER}, destroy handles. Observed: the set of tables every iterator returns (from the merged value of a key all tables hold) and the complete key sequence it returns, compared with the merge of the tables of the model view within the range / after the seek target (tables hold keys of their own that interleave; seek targets where every file has a different head key). Non-trivial: history contains a setfile change followed by an open; distinct by history."
@@ -24,6 +25,7 @@ type xop =
   | XSetFile of int list | XCreate of int * int (* name, table id; id < 0: not a table *) | XDelete of int
   | XAdvance of int * int | XReload of int | XReloadNow of int | XOpen of int * int (* handle, 0 iter / 1 get hit / 2 get miss / 3 get_prefix "x" / 4 get_range "x".."x" / 5 iter + seek "x" / 6 get_prefix "" / 7 get_range "a".."z" + seek "x" *)
   | XClose of int | XDup of int * int * int * int | XDestroy of int
+  | XPartition of int * int   (* handle, 1 + parity accepted by the filename callback: mtbl_fileset_partition; only as the last operation before the closing part of a history *)
 
 let xop_json = function
   | XSetFile l -> JL (JS "setfile" :: List.map (fun n -> JI n) l)
@@ -32,6 +34,7 @@ let xop_json = function
   | XOpen (h, k) -> JL [ JS "open"; JI h; JS (match k with 0 -> "iter" | 1 -> "get(x)" | 2 -> "get(absent)" | 3 -> "get_prefix(x)" | 4 -> "get_range(x,x)" | 5 -> "iter;seek(x)" | 6 -> "get_prefix()" | 7 -> "get_range(a,z);seek(x)" | 8 -> "iter;seek(m1)" | 9 -> "get_range(a,z);seek(m2)" | _ -> "get_prefix(m);seek(m1)") ]
   | XClose i -> JL [ JS "close"; JI i ]
   | XDup (h, iv, nf, rf) -> JL [ JS "dup"; JI h; JI iv; JI nf; JI rf ] | XDestroy h -> JL [ JS "destroy"; JI h ]
+  | XPartition (h, par) -> JL [ JS "partition"; JI h; JI (par - 1) ]
 
 (* names 6.. live in a subdirectory of the setfile's directory: their setfile lines are relative paths with a
    directory part, which the fileset resolves against the directory of the setfile (not the working directory) *)
@@ -53,7 +56,8 @@ let to_model (ops : xop list) : fop list =
     | XReload h -> OpReload (nat_of_int h) | XReloadNow h -> OpReloadNow (nat_of_int h)
     | XOpen (h, _) -> OpOpen (nat_of_int h) | XClose i -> OpClose (nat_of_int i)
     | XDup (h, iv, nf, rf) -> OpDup (nat_of_int h, n_of_int iv, filt nf, filt rf)
-    | XDestroy h -> OpDestroy (nat_of_int h)) ops
+    | XDestroy h -> OpDestroy (nat_of_int h)
+    | XPartition _ -> OpAdvance (N0, N0)     (* placeholder that leaves the model state unchanged; the partition itself is evaluated apart *)) ops
 
 (* the entries of table id t: ("x", "T<t>"), fillers "f000".. shared by the tables (merged values) so that
    count_entries = 8 + t, and keys of its own that interleave with those of the other tables ("m<j>t<t>", "y<t>"):
@@ -97,7 +101,7 @@ let run_impl dir ~interval ~nf ~rf (ops : xop list) : child_end =
     let mc = Mg.c_merge_clos_new 1 0 in
     let handles = ref [| c_fileset_init setfile interval mc nf rf |] in
     let iters = ref [||] in
-    let outs = ref [] and keyouts = ref [] in
+    let outs = ref [] and keyouts = ref [] and parts = ref None in
     let drain it =
       let tables = ref [] and keys = ref [] in
       if it <> 0n then begin
@@ -142,8 +146,14 @@ let run_impl dir ~interval ~nf ~rf (ops : xop list) : child_end =
          if it <> 0n then Rd.c_iter_destroy it;
          !iters.(i) <- (0n, kind, ostep)
        | XDup (h, iv, f1, f2) -> handles := Array.append !handles [| c_fileset_dup !handles.(h) iv mc f1 f2 |]
-       | XDestroy h -> c_fileset_destroy !handles.(h); !handles.(h) <- 0n)) ops;
-    "DONE" ^ Marshal.to_string (List.rev !outs, List.rev !keyouts) [])
+       | XDestroy h -> c_fileset_destroy !handles.(h); !handles.(h) <- 0n
+       | XPartition (h, par) ->
+         let (m1, m2) = c_fileset_partition !handles.(h) par in
+         let dr m = let it = Rd.c_source_iter (Mg.c_merger_source m) in let r = drain it in if it <> 0n then Rd.c_iter_destroy it; r in
+         let r1 = dr m1 in let r2 = dr m2 in
+         Mg.c_merger_destroy m1; Mg.c_merger_destroy m2;
+         parts := Some (r1, r2))) ops;
+    "DONE" ^ Marshal.to_string (List.rev !outs, List.rev !keyouts, !parts) [])
 
 (* history generator: well-formed usage *)
 let gen_history st : int * int * int * xop list =
@@ -174,6 +184,8 @@ let gen_history st : int * int * int * xop list =
          alive := !nh :: !alive; incr nh end
      | _ -> ())
   done;
+  (* sometimes: mtbl_fileset_partition on a live handle, by the parity of the file number, as the last operation *)
+  if rint st 3 = 0 then add (XPartition (List.nth !alive (rint st (List.length !alive)), 1 + rint st 2));
   (* close everything that is still open (drains them), then destroy handles in random order *)
   List.iter (fun i -> add (XClose i)) (List.rev !open_iters);
   let order = List.sort (fun _ _ -> if rbool st then 1 else -1) !alive in
@@ -199,9 +211,35 @@ let check acc ~klass (interval, nf, rf, ops) =
     fail acc ~kind:"model_mismatch" ~what:"[C07] the model itself uses a destroyed reader (theorem T07a would be false)" (Lazy.force case);
   let dir = Filename.concat (Wr.tmpdir ()) (Printf.sprintf "fs_%d" (Unix.getpid ())) in
   ignore (Sys.command (Printf.sprintf "rm -rf %s && mkdir -p %s" (Filename.quote dir) (Filename.quote dir)));
+  (* mtbl_fileset_partition: the model (model/FilesetPart.v, T07f) on the state the history has reached *)
+  let mpart = (let rec split acc = function [] -> None | XPartition (h, par) :: _ -> Some (List.rev acc, h, par) | o :: tl -> split (o :: acc) tl in
+               match split [] ops with
+               | None -> None
+               | Some (prefix, h, par) ->
+                 let st = fstate_after (fs_init w0 (n_of_int interval) (filt nf) (filt rf)) (to_model prefix) in
+                 Some (snd (fileset_partition st (nat_of_int h) (parity_cb (n_of_int (par - 1)))))) in
   (match run_impl dir ~interval ~nf ~rf ops with
+   | Signaled (sg, _) when sg = Sys.sigabrt && mpart = Some PAbort ->
+     (* observation O8: a loaded entry whose file is not a table makes mtbl_fileset_partition call mtbl_reader_source(NULL),
+        which asserts; the model says the same *)
+     bump acc "partition_abort_on_non_table(O8)"
+   | Exited (_, s) when String.length s > 4 && String.sub s 0 4 = "DONE" && mpart = Some PAbort ->
+     ignore s;
+     fail acc ~kind:"model_mismatch" ~what:"[C07] mtbl_fileset_partition returned although the model (a loaded entry without reader) predicts the assertion of mtbl_reader_source" (Lazy.force case)
    | Exited (_, s) when String.length s > 4 && String.sub s 0 4 = "DONE" ->
-     let (iouts, keyouts) : (int * int list) list * (int * int * string list) list = Marshal.from_string s 4 in
+     let (iouts, keyouts, parts) : (int * int list) list * (int * int * string list) list * ((int list * string list) * (int list * string list)) option = Marshal.from_string s 4 in
+     (match mpart, parts with
+      | Some (POk (m1, m2)), Some ((t1, k1), (t2, k2)) ->
+        bump acc "partition_compared";
+        let tabs m = List.sort compare (List.map (fun (_, t) -> int_of_n t) m) in
+        if (t1, t2) <> (tabs m1, tabs m2) then
+          fail acc ~kind:"model_mismatch" ~what:"[C07] mtbl_fileset_partition: tables in the two mergers differ from the model (T07f_partition)"
+            (JO [ "case", Lazy.force case; "impl", JS (Printf.sprintf "[%s] / [%s]" (String.concat "," (List.map string_of_int t1)) (String.concat "," (List.map string_of_int t2)));
+                  "model", JS (Printf.sprintf "[%s] / [%s]" (String.concat "," (List.map string_of_int (tabs m1))) (String.concat "," (List.map string_of_int (tabs m2)))) ])
+        else if k1 <> expected_keys 0 t1 || k2 <> expected_keys 0 t2 then
+          fail acc ~kind:"spec_violation" ~what:"[C07] a merger made by mtbl_fileset_partition does not return the merge of its files" (Lazy.force case)
+      | Some (POk _), None -> fail acc ~kind:"model_mismatch" ~what:"[C07] harness error: partition result missing" (Lazy.force case)
+      | _ -> ());
      let iouts = List.sort compare iouts in
      let no_x st = (match List.nth ops st with XOpen (_, 10) -> true | _ -> false) in
      let mv = List.sort compare (List.filter_map (fun (st, v) -> match v with `View l when not (no_x st) -> Some (st, l) | _ -> None) mviews) in
@@ -259,6 +297,12 @@ let run ~tier ~seed ~only acc =
     (0, 0, 0, [ XCreate (1, 1); XCreate (2, 2); XSetFile [ 1; 2 ]; XDup (0, 0, 0, 0); XOpen (0, 3); XOpen (1, 4); XOpen (0, 5); XOpen (1, 6); XOpen (0, 7);
                 XCreate (3, 3); XSetFile [ 2; 3 ]; XAdvance (2, 0); XReloadNow 1; XOpen (1, 3); XClose 0; XClose 1; XClose 2; XClose 3; XClose 4; XClose 5;
                 XOpen (0, 4); XOpen (1, 7); XClose 6; XClose 7; XDestroy 0; XDestroy 1 ]);
+    (* mtbl_fileset_partition: filters of the handle are not consulted; a dup; after a reload request; with a non-table loaded (O8) *)
+    (0, 1, 2, [ XCreate (1, 1); XCreate (2, 2); XCreate (3, 3); XCreate (4, 4); XSetFile [ 1; 2; 3; 4 ]; XOpen (0, 0); XClose 0; XPartition (0, 1); XDestroy 0 ]);
+    (0, 0, 0, [ XCreate (1, 1); XCreate (2, 2); XCreate (5, 0); XSetFile [ 1; 2; 5 ]; XDup (0, 0, 1, 0); XOpen (1, 0); XCreate (4, 4); XSetFile [ 2; 4; 5 ]; XAdvance (2, 0); XReloadNow 0;
+                XPartition (1, 2); XClose 0; XDestroy 1; XDestroy 0 ]);
+    (0, 0, 0, [ XCreate (1, 1); XCreate (2, -1); XCreate (3, 3); XSetFile [ 1; 2; 3 ]; XOpen (0, 0); XClose 0; XPartition (0, 1); XDestroy 0 ]);
+    (0, 0, 0, [ XSetFile []; XPartition (0, 2); XDestroy 0 ]);
     (* seeks over 2, 4 and 6 files whose head keys at the target all differ, the files named last holding the smallest *)
     (0, 0, 0, [ XCreate (1, 5); XCreate (2, 3); XSetFile [ 1; 2 ]; XOpen (0, 8); XClose 0; XOpen (0, 9); XClose 1; XOpen (0, 10); XClose 2;
                 XCreate (3, 4); XCreate (4, 1); XSetFile [ 1; 2; 3; 4 ]; XAdvance (2, 0); XReloadNow 0; XOpen (0, 8); XClose 3; XOpen (0, 9); XClose 4; XOpen (0, 10); XClose 5;
